@@ -38,6 +38,7 @@ CLAIMS.update({
  "C13": ("model_checking", CBTXT + "C13: for all-impacted models the number of for_each_in_domain calls per layer is compared with max_width (restricted: every layer; relaxed: from the second layer below the root); the width combinators are evaluated on an exhaustive grid against Width.tla.", "6.C13", "TLA+ trace validation of per-layer expansion counts + exhaustive grid for the width combinators"),
  "C20": ("model_checking", CBTXT + "C20: every diagram is drawn for all 64 flag combinations under catch_unwind, a small DOT reader turns each drawing into an event, and TLC compares it with the rebuilt diagram: each non-hidden node exactly once, hidden nodes = deleted nodes, edge set = inbound arcs of drawn nodes with decision and cost, value labels, terminal node and its edges iff the last layer is non-empty, clusters only with the flags.", "6.C20", "TLA+ reference of the expected drawing evaluated by TLC on parsed DOT output"),
 })
+CLAIMS["C16"] = ("model_checking", "All 12 example binaries are built from the working tree and run on seeded small instances written in their own input formats (widths default/1/2/3 x threads 1/2/4 where honoured, 30 s watchdog); TLC evaluates the declarative optimum of each problem (Examples.tla: brute force over subsets, assignments, subsequences, mark sets, permutations, schedules, written from the problem statements) and TraceExamples.tla compares it with the printed objective; crash, hang, unparsable output and unexpected abort are deviations. TLC's state exploration adds nothing here: the specification is used as an executable, independent oracle.", "6.C16", "TLA+ declarative oracle evaluated by TLC on recorded runs of the example binaries")
 REASONS = {}
 checks = []
 for p in props:
@@ -47,7 +48,7 @@ for p in props:
                        "evidence_file": f"/verif/evidence/{p}.json", "replay_cmd_template": f"python3 tools/check.py {p} quick --replay {{path}}",
                        "engine": "tools/check.py", "level_claimed": {"category": cat, "text": text, "design_ref": ref}, "level_note": TRUSTED, "technique": tech})
 m = {"version": 1,
-     "setup_cmd": "cd /verif/harness && cp -f /repo/Cargo.lock Cargo.lock && CARGO_NET_OFFLINE=true cargo build --offline --bins",
+     "setup_cmd": "cd /verif/harness && cp -f /repo/Cargo.lock Cargo.lock && CARGO_NET_OFFLINE=true cargo build --offline --bins && cd /repo && CARGO_NET_OFFLINE=true CARGO_TARGET_DIR=/verif/work/ex_target cargo build --offline --release --examples -p ddo",
      "hooks": {"guard": "cargo feature xgillard_ddo_verif of crate ddo", "enable": "the harness depends on ddo = { path = \"/repo/ddo\", features = [\"xgillard_ddo_verif\"] }",
                "baseline_off_cmd": "cd /repo && cargo test --workspace --no-fail-fast --offline",
                "source_commits": ["8ad09b1"], "add_only": True},
